@@ -169,9 +169,39 @@ type opDesc struct {
 type BD = osmomath.BigDec
 type D = osmomath.Dec
 
+// outBD / outD: the raw value of a result of a NON-mutating form, followed by an in-place update of that
+// result object.  If the result shares its big.Int with an operand (aliasing), the operand read back after
+// the call (a2 / b2) differs from the operand passed in, which the specification forbids for non-mutating
+// forms: a later in-place update of the result must not reach the operands.
+func outBD(r BD) *big.Int {
+	raw := r.BigInt()
+	func() {
+		defer func() { _ = recover() }()
+		if r.IsNegative() {
+			r.AddMut(osmomath.SmallestBigDec())
+		} else {
+			r.SubMut(osmomath.SmallestBigDec())
+		}
+	}()
+	return raw
+}
+
+func outD(r D) *big.Int {
+	raw := r.BigInt()
+	func() {
+		defer func() { _ = recover() }()
+		if r.IsNegative() {
+			r.AddMut(osmomath.SmallestDec())
+		} else {
+			r.SubMut(osmomath.SmallestDec())
+		}
+	}()
+	return raw
+}
+
 func bdbd(name, grp string, f func(a, b BD) BD, mut string, fm func(a, b BD) BD) opDesc {
 	d := opDesc{fam: "bd", name: name, ta: kBD, tb: kBD, grp: grp, sc: 36,
-		run: func(x, y *operand, _ uint64) *big.Int { return f(x.bd, y.bd).BigInt() }}
+		run: func(x, y *operand, _ uint64) *big.Int { return outBD(f(x.bd, y.bd)) }}
 	if fm != nil {
 		d.mut = mut
 		d.runMut = func(x, y *operand, _ uint64) *big.Int { return fm(x.bd, y.bd).BigInt() }
@@ -181,7 +211,7 @@ func bdbd(name, grp string, f func(a, b BD) BD, mut string, fm func(a, b BD) BD)
 
 func bddec(name, grp string, f func(a BD, b D) BD, mut string, fm func(a BD, b D) BD) opDesc {
 	d := opDesc{fam: "bd", name: name, ta: kBD, tb: kDec, grp: grp, sc: 18,
-		run: func(x, y *operand, _ uint64) *big.Int { return f(x.bd, y.dec).BigInt() }}
+		run: func(x, y *operand, _ uint64) *big.Int { return outBD(f(x.bd, y.dec)) }}
 	if fm != nil {
 		d.mut = mut
 		d.runMut = func(x, y *operand, _ uint64) *big.Int { return fm(x.bd, y.dec).BigInt() }
@@ -201,7 +231,7 @@ func bdun(name, grp string, f func(a BD) *big.Int, mut string, fm func(a BD) *bi
 
 func decdec(name, grp string, f func(a, b D) D, mut string, fm func(a, b D) D) opDesc {
 	return opDesc{fam: "dec", name: name, ta: kDec, tb: kDec, grp: grp, sc: 18, mut: mut,
-		run:    func(x, y *operand, _ uint64) *big.Int { return f(x.dec, y.dec).BigInt() },
+		run:    func(x, y *operand, _ uint64) *big.Int { return outD(f(x.dec, y.dec)) },
 		runMut: func(x, y *operand, _ uint64) *big.Int { return fm(x.dec, y.dec).BigInt() }}
 }
 
@@ -255,9 +285,9 @@ func table() []opDesc {
 		bddec("MulTruncateDec", "mul", BD.MulTruncateDec, "", nil),
 		bddec("MulRoundUpDec", "mul", BD.MulRoundUpDec, "", nil),
 		{fam: "bd", name: "MulInt", ta: kBD, tb: kBigInt, grp: "mulint", sc: 36,
-			run: func(x, y *operand, _ uint64) *big.Int { return x.bd.MulInt(y.bi).BigInt() }},
+			run: func(x, y *operand, _ uint64) *big.Int { return outBD(x.bd.MulInt(y.bi)) }},
 		{fam: "bd", name: "MulInt64", ta: kBD, tb: kI64, grp: "mulint", sc: 36,
-			run: func(x, y *operand, _ uint64) *big.Int { return x.bd.MulInt64(y.i64).BigInt() }},
+			run: func(x, y *operand, _ uint64) *big.Int { return outBD(x.bd.MulInt64(y.i64)) }},
 		bdbd("Quo", "quo", BD.Quo, "QuoMut", BD.QuoMut),
 		bdbd("QuoTruncate", "quo", BD.QuoTruncate, "QuoTruncateMut", BD.QuoTruncateMut),
 		bdbd("QuoRoundUp", "quo", BD.QuoRoundUp, "QuoRoundUpMut", BD.QuoRoundUpMut),
@@ -266,35 +296,35 @@ func table() []opDesc {
 		{fam: "bd", name: "QuoRoundUpNextIntMut", ta: kBD, tb: kBD, grp: "quoint", sc: 36, isMut: true,
 			run: func(x, y *operand, _ uint64) *big.Int { return x.bd.QuoRoundUpNextIntMut(y.bd).BigInt() }},
 		{fam: "bd", name: "QuoRaw", ta: kBD, tb: kI64, grp: "quoraw", sc: 36,
-			run: func(x, y *operand, _ uint64) *big.Int { return x.bd.QuoRaw(y.i64).BigInt() }},
+			run: func(x, y *operand, _ uint64) *big.Int { return outBD(x.bd.QuoRaw(y.i64)) }},
 		{fam: "bd", name: "QuoInt", ta: kBD, tb: kBigInt, grp: "quoint", sc: 36,
-			run: func(x, y *operand, _ uint64) *big.Int { return x.bd.QuoInt(y.bi).BigInt() }},
+			run: func(x, y *operand, _ uint64) *big.Int { return outBD(x.bd.QuoInt(y.bi)) }},
 		{fam: "bd", name: "QuoInt64", ta: kBD, tb: kI64, grp: "quoint", sc: 36,
-			run: func(x, y *operand, _ uint64) *big.Int { return x.bd.QuoInt64(y.i64).BigInt() }},
-		bdun("Neg", "any", func(a BD) *big.Int { return a.Neg().BigInt() }, "NegMut", func(a BD) *big.Int { return a.NegMut().BigInt() }),
-		bdun("Abs", "any", func(a BD) *big.Int { return a.Abs().BigInt() }, "AbsMut", func(a BD) *big.Int { return a.AbsMut().BigInt() }),
-		bdun("Ceil", "unit", func(a BD) *big.Int { return a.Ceil().BigInt() }, "CeilMut", func(a BD) *big.Int { return a.CeilMut().BigInt() }),
-		bdun("TruncateDec", "unit", func(a BD) *big.Int { return a.TruncateDec().BigInt() }, "", nil),
+			run: func(x, y *operand, _ uint64) *big.Int { return outBD(x.bd.QuoInt64(y.i64)) }},
+		bdun("Neg", "any", func(a BD) *big.Int { return outBD(a.Neg()) }, "NegMut", func(a BD) *big.Int { return a.NegMut().BigInt() }),
+		bdun("Abs", "any", func(a BD) *big.Int { return outBD(a.Abs()) }, "AbsMut", func(a BD) *big.Int { return a.AbsMut().BigInt() }),
+		bdun("Ceil", "unit", func(a BD) *big.Int { return outBD(a.Ceil()) }, "CeilMut", func(a BD) *big.Int { return a.CeilMut().BigInt() }),
+		bdun("TruncateDec", "unit", func(a BD) *big.Int { return outBD(a.TruncateDec()) }, "", nil),
 		bdun("TruncateInt", "unit", func(a BD) *big.Int { return a.TruncateInt().BigInt() }, "", nil),
 		bdun("TruncateInt64", "unit64", func(a BD) *big.Int { return i64(a.TruncateInt64()) }, "", nil),
 		bdun("RoundInt", "unit", func(a BD) *big.Int { return a.RoundInt().BigInt() }, "", nil),
 		bdun("RoundInt64", "unit64", func(a BD) *big.Int { return i64(a.RoundInt64()) }, "", nil),
-		bdun("Dec", "conv", func(a BD) *big.Int { return a.Dec().BigInt() }, "", nil),
-		bdun("DecRoundUp", "conv", func(a BD) *big.Int { return a.DecRoundUp().BigInt() }, "", nil),
+		bdun("Dec", "conv", func(a BD) *big.Int { return outD(a.Dec()) }, "", nil),
+		bdun("DecRoundUp", "conv", func(a BD) *big.Int { return outD(a.DecRoundUp()) }, "", nil),
 		{fam: "bd", name: "DecWithPrecision", ta: kBD, tb: kNone, prec: true, grp: "conv", sc: 36,
-			run: func(x, _ *operand, p uint64) *big.Int { return x.bd.DecWithPrecision(p).BigInt() }},
+			run: func(x, _ *operand, p uint64) *big.Int { return outD(x.bd.DecWithPrecision(p)) }},
 		{fam: "bd", name: "ChopPrecision", ta: kBD, tb: kNone, prec: true, grp: "conv", sc: 36,
-			run:    func(x, _ *operand, p uint64) *big.Int { return (&x.bd).ChopPrecision(p).BigInt() },
+			run:    func(x, _ *operand, p uint64) *big.Int { return outBD((&x.bd).ChopPrecision(p)) },
 			mut:    "ChopPrecisionMut",
 			runMut: func(x, _ *operand, p uint64) *big.Int { return (&x.bd).ChopPrecisionMut(p).BigInt() }},
 		{fam: "bd", name: "BigDecFromDec", ta: kDec, tb: kNone, grp: "any", sc: 18,
-			run:    func(x, _ *operand, _ uint64) *big.Int { return osmomath.BigDecFromDec(x.dec).BigInt() },
+			run:    func(x, _ *operand, _ uint64) *big.Int { return outBD(osmomath.BigDecFromDec(x.dec)) },
 			mut:    "BigDecFromDecMut",
 			runMut: func(x, _ *operand, _ uint64) *big.Int { return osmomath.BigDecFromDecMut(x.dec).BigInt() }},
 		{fam: "bd", name: "BigDecFromSDKInt", ta: kSdkInt, tb: kNone, grp: "any", sc: 36,
-			run: func(x, _ *operand, _ uint64) *big.Int { return osmomath.BigDecFromSDKInt(x.si).BigInt() }},
+			run: func(x, _ *operand, _ uint64) *big.Int { return outBD(osmomath.BigDecFromSDKInt(x.si)) }},
 		{fam: "bd", name: "NewBigDecFromDecMulDec", ta: kDec, tb: kDec, grp: "any", sc: 18,
-			run: func(x, y *operand, _ uint64) *big.Int { return osmomath.NewBigDecFromDecMulDec(x.dec, y.dec).BigInt() }},
+			run: func(x, y *operand, _ uint64) *big.Int { return outBD(osmomath.NewBigDecFromDecMulDec(x.dec, y.dec)) }},
 		{fam: "bd", name: "DivIntByU64.Up", ta: kSdkInt, tb: kU64, grp: "divu64", sc: 36, run: divU64(osmomath.RoundUp)},
 		{fam: "bd", name: "DivIntByU64.Down", ta: kSdkInt, tb: kU64, grp: "divu64", sc: 36, run: divU64(osmomath.RoundDown)},
 		{fam: "bd", name: "DivIntByU64.Bankers", ta: kSdkInt, tb: kU64, grp: "divu64", sc: 36, run: divU64(osmomath.RoundBankers)},
@@ -387,10 +417,10 @@ func table() []opDesc {
 			run:    func(x, y *operand, _ uint64) *big.Int { return x.dec.QuoInt64(y.i64).BigInt() },
 			mut:    "QuoInt64Mut",
 			runMut: func(x, y *operand, _ uint64) *big.Int { return x.dec.QuoInt64Mut(y.i64).BigInt() }},
-		decun("Neg", "any", func(a D) *big.Int { return a.Neg().BigInt() }, "NegMut", func(a D) *big.Int { return a.NegMut().BigInt() }),
-		decun("Abs", "any", func(a D) *big.Int { return a.Abs().BigInt() }, "AbsMut", func(a D) *big.Int { return a.AbsMut().BigInt() }),
-		decun("Ceil", "unit", func(a D) *big.Int { return a.Ceil().BigInt() }, "", nil),
-		decun("TruncateDec", "unit", func(a D) *big.Int { return a.TruncateDec().BigInt() }, "", nil),
+		decun("Neg", "any", func(a D) *big.Int { return outD(a.Neg()) }, "NegMut", func(a D) *big.Int { return a.NegMut().BigInt() }),
+		decun("Abs", "any", func(a D) *big.Int { return outD(a.Abs()) }, "AbsMut", func(a D) *big.Int { return a.AbsMut().BigInt() }),
+		decun("Ceil", "unit", func(a D) *big.Int { return outD(a.Ceil()) }, "", nil),
+		decun("TruncateDec", "unit", func(a D) *big.Int { return outD(a.TruncateDec()) }, "", nil),
 		decun("TruncateInt", "unit", func(a D) *big.Int { return a.TruncateInt().BigInt() }, "", nil),
 		decun("TruncateInt64", "unit64", func(a D) *big.Int { return i64(a.TruncateInt64()) }, "", nil),
 		decun("RoundInt", "unit", func(a D) *big.Int { return a.RoundInt().BigInt() }, "", nil),
